@@ -67,7 +67,7 @@ CLAIMED.update({
                      'each data codeword is proved equal to the ISO 7.4 bit stream (mode indicator, count, packed characters, terminator, bit padding, pad '
                      'codewords) built by an independent encoder on terms; every panic/overflow obligation met is discharged. CompactQR::push_bits is checked '
                      'as one inductive step from an arbitrary valid buffer state for every alignment 0..24 and width 0..16.',
-                note='Lengths are enumerated (boundary lengths per cell), contents are symbolic. Trusted: MIR executor, Vec/slice/iterator models, '
+                note='Lengths are enumerated (boundary lengths per cell), contents are symbolic; numeric/alphanumeric payloads above 200 (quick) / 700 (thorough) characters are windowed (first 6 and last 12 characters symbolic, the middle a seed-chosen string). A cell on which encode() panics on every path is replayed natively and reported. Trusted: MIR executor, Vec/slice/iterator models, '
                      'term normaliser (validated by concrete runs against the native build), z3 5.1.',
                 design='4/C06'),
     'C01': dict(technique='symbolic execution of the crate MIR (mirsym) of the whole QRCode::new pipeline per cell + ISO reference decoder on terms + SMT (z3 QF_BV); gate/glue contracts with uninterpreted stages',
@@ -82,7 +82,7 @@ CLAIMED.update({
                 text='Every arithmetic-overflow, bounds, division and debug assertion and every panic!/unwrap/unreachable! site instance met while executing '
                      'QRCode::new cells (incl. inputs far beyond capacity), place_on_matrix, structure+division and encode on symbolic contents is discharged as '
                      '"path condition implies cannot fail"; Kani proves the same for best_encoding (<= 24 bytes), Version::get (every usize) and the GF kernel, '
-                     'with unwinding assertions. A loop with a symbolic trip count would be an unsupported construct (none met).',
+                     'with unwinding assertions; the overflow obligations of matrix_score_squares and dark_module_score are discharged with every data module symbolic on V40 and V1 (counters too narrow for the largest symbol). A loop with a symbolic trip count would be an unsupported construct (none met).',
                 note='Shapes (lengths, versions, option combinations) are enumerated; contents are symbolic. Forced modes that do not contain the input panic by design and are excluded.',
                 design='4/C10'),
     'C11': dict(technique='symbolic execution of the crate MIR of score::* on all-symbolic data modules and of the selection loop with score uninterpreted + SMT (z3 QF_BV); accumulation-chain decomposition',
@@ -90,7 +90,7 @@ CLAIMED.update({
                      'assignment of the data modules (V1-V2 quick, V1-V6 thorough); the selection loop is proved to rank candidate k = placed codewords masked '
                      'with pattern k together with the transpose OF THAT CANDIDATE, to emit the first minimiser and to let a forced mask override. '
                      'This check found the unmasked-transpose defect of the pinned tree (fixed in /repo 3072ea0).',
-                note='The un-stubbed end-to-end argmin query is beyond the solver; it is the conjunction of the two parts. Trusted: executor, models, z3.',
+                note='The un-stubbed end-to-end argmin query is beyond the solver; it is the conjunction of the two parts. The run-length term of score::line is decided for lines up to 29 modules (V1-V3) only. Trusted: executor, models, z3.',
                 design='4/C11'),
     'C12': dict(technique='symbolic execution of the crate MIR of SvgBuilder (default + setters + to_str) producing a symbolic string (literal, symbolic and guarded pieces) + SMT (z3) + expat on the skeleton',
                 text='The real SVG builder is executed with every module value, every RGBA byte and every character of the image string symbolic. Checked for all '
@@ -98,14 +98,15 @@ CLAIMED.update({
                      'square viewBox/background of side size+2*margin; per layer exactly one sub-path per module, present iff that module is dark, inside the cell '
                      'anchored at (column+margin,row+margin); colour text is #rrggbb or #rrggbbaa iff alpha<255 as a function of the bytes; un-escaping the href '
                      'returns the image string for every character value. Found the raw-href defect of the pinned tree (fixed in /repo 62c2cec).',
-                note='Cells (version, margin, layer list, image length) are enumerated; within a cell everything else is symbolic. Image characters are printable ASCII '
+                note='Cells (version, margin incl. 95 and 990 for 3- and 4-digit coordinates, layer list, image length) are enumerated; within a cell everything else is symbolic. If the href pieces of one character depend on other characters the un-escaping clause is evaluated under derived baselines and a pass is reported as inconclusive. Image characters are printable ASCII '
                      '(control characters cannot be represented in XML 1.0). Trusted: executor, String/format! models (validated against the native output per cell), expat.',
                 design='4/C12'),
     'C14': dict(technique='classification of every static in the crate MIR (frame condition) + symbolic execution of all setter histories and of build/render runs whose outputs must be functions of their arguments',
-                text='No static mut / interior-mutable static / thread_local exists in the MIR of the crate (400+ functions scanned), so every executor run is a function of its '
-                     'arguments; every sequence of <= 4 QRBuilder setter calls with symbolic arguments leaves each field at the last value set and build(&self) leaves the builder '
-                     'untouched and forwards exactly those values; to_str and SvgBuilder::to_str leave the QRCode untouched. If hidden state appears, its content is unmodellable '
-                     '(atomics/locks) and the verdict comes from a native history/8-thread replay.',
+                text='No static mut / interior-mutable static / thread_local / randomly seeded container exists in the MIR of the crate (400+ functions scanned), so every executor run is a function of its '
+                     'arguments; for every call history of <= 4 calls over {mode, ecl, version, mask, build} on ONE builder followed by a build, with symbolic setter arguments and every build returning an arbitrary '
+                     'Ok/Err with arbitrary reported options, each build hands QRCode::new the input and exactly the option state a fresh builder with the same final settings has; to_str and SvgBuilder::to_str '
+                     'leave the QRCode untouched. If hidden state appears (statics, thread-locals, HashMap), its content is unmodellable and the verdict comes from native replays: histories, 8 threads, '
+                     'large-then-small builds and renderings on one thread, repeated builds.',
                 note='Thread schedules are NOT explored (neither engine supports concurrency): schedule independence is an implication of the absence of shared mutable state, not a verdict.',
                 design='4/C14'),
     'C16': dict(technique='symbolic execution of the crate MIR of QRCode::to_str with every module symbolic + SMT (z3)',
@@ -113,10 +114,10 @@ CLAIMED.update({
                      'rendering of the matrix with a one-module light border ((size+1)/2+1 lines of size+2 characters from the four allowed symbols); the QR code is not modified.',
                 note='Trusted: executor, String model (validated against the native output per size).', design='4/C16'),
     'C17': dict(technique='symbolic execution of the crate MIR of src/wasm.rs (compiled on the host through the overlay) + SMT (z3); QRCode::new / to_str uninterpreted for the glue contracts',
-                text='Colour setters: for every ASCII string of length 0..10 no panic obligation is satisfiable and exactly 4 components are stored; qr_svg: for all 8 option states '
+                text='Colour setters: for every ASCII string of length 0..10 and every well-formed UTF-8 string of 0..9 bytes (bytes symbolic under a validity DFA) no panic obligation is satisfiable and exactly 4 components are stored; qr_svg: for all 8 option states '
                      '(size/position/image set or not) no panic and the builder is configured term-for-term with the option values, result is the rendering iff the build succeeded; '
-                     'qr: size*size value bits of the QR code QRCode::new returns with default options, [] on Err. Found two defects of the pinned tree (fixed in /repo 352d767, b5bc324).',
-                note='Non-ASCII colour strings are replayed natively only; the wasm32 target and the wasm-bindgen glue are outside. Trusted: executor, String/Vec/Option models, vec! literal model.',
+                     'qr: size*size value bits of the QR code QRCode::new returns with default options, [] on Err; both also with a content of arbitrary length (symbolic length, bytes unmodelled): no decision is taken on the content before the build. Found two defects of the pinned tree (fixed in /repo 352d767, b5bc324).',
+                note='The wasm32 target and the wasm-bindgen glue are outside; colour strings longer than 10 characters / 9 non-ASCII bytes are outside. Trusted: executor, byte-level String/str model (UTF-8 DFA validated against a reference decoder), Vec/Option models, vec! literal model.',
                 design='4/C17'),
     'C18': dict(technique='symbolic execution of the crate MIR of SvgBuilder::image; default placement in an exact fixed-point (dyadic) model of f64 decided in QF_BV, overrides as identities between FP terms (z3 QF_FP)',
                 text='Default placement, all 40 versions x 3 frame shapes with the margin a symbolic usize (<= 2^20): frame square, centred, module-aligned, side < 40% of the symbol, '
@@ -127,9 +128,9 @@ CLAIMED.update({
                      'The decimal text of the numbers is not modelled; "centred" under overrides holds up to the rounding of the stated formulas.',
                 design='4/C18'),
     'C19': dict(technique='symbolic execution of the crate MIR of SvgBuilder::to_file / ImageBuilder::to_file with environment stubs (arbitrary Ok/Err per I/O call) + SMT (z3)',
-                text='For every combination of outcomes of File::create, write_all and Pixmap::save_png: Ok(()) is returned iff every call succeeded, write_all receives exactly the '
+                text='For every path (unknown content, symbolic length) and every combination of outcomes of the open (File::create / OpenOptions / fs::write; content surviving from before the open is a free boolean unless the open truncates), write_all (also through BufWriter) and Pixmap::save_png: Ok(()) is returned iff every call succeeded, write_all receives exactly the '
                      'rendering\'s bytes and only after a successful create, every error is returned as the IoError variant carrying the failing call\'s error, converts to ConvertError::Io, '
-                     'and no panic obligation exists on any path. The stub contract is validated by native runs (ok path, missing directory, path is a directory).',
+                     'and no panic obligation exists on any path (incl. char-boundary obligations of any slicing of the path). The stub contract is validated by native runs (ok path, existing longer file, missing directory, path is a directory, /dev/full).',
                 note='Fault kinds are abstracted to "this call returned Err"; std::fs / tiny-skia contracts are assumed. Panics inside to_pixmap (third-party rasteriser) are outside.',
                 design='4/C19'),
     'C15': dict(technique=_X_TECH,
